@@ -588,6 +588,43 @@ def run(shard, ctx):
                 st, eq = ctx.call(lambda: ca == cb)
                 ctx.check("composition: compositions with different tracks are not equal", st == "ok" and bool(eq) is False, {"tracks": "swapped"},
                           False, repr(eq), mechanism="composition-neq-track-order")
+                # assignment by index and '+ Bar': the sequence read back by indexing, iteration and len is the one assigned
+                rngi = ctx.rng("index-assign-%d" % ci)
+                pool = [X, Y, Z, ["F", "A"], ["G"]]
+                want = [rngi.choice(pool) for _ in range(rngi.randint(1, 5))]
+                tr = Track()
+                for q in want:
+                    if rngi.random() < 0.5:
+                        tr + bar_of(q)
+                    else:
+                        tr.add_bar(bar_of(q))
+                trail = [("bars", [list(q) for q in want])]
+                for step in range(rngi.randint(1, 4)):
+                    i = rngi.randrange(-len(want), len(want))
+                    q = rngi.choice(pool)
+                    nb = bar_of(q)
+                    st, r = ctx.call(tr.__setitem__, i, nb)
+                    want[i] = q
+                    trail.append(("track[%d] = bar" % i, list(q)))
+                    got = [[e[2].get_note_names()[0] for e in b] for b in tr]
+                    ctx.check("track: length and indexing follow the bars", st == "ok" and len(tr) == len(want) and got == [list(x) for x in want]
+                              and tr[i] is nb, {"history": trail}, [list(x) for x in want], got if st == "ok" else repr(r), mechanism="index-assign")
+                st, r = ctx.call(tr.__setitem__, 0, "not a bar")
+                ctx.check("track: length and indexing follow the bars", st == "exc" and len(tr) == len(want),
+                          {"history": trail + [("track[0] = 'not a bar'",)]}, "refused, nothing changed", repr(r), mechanism="index-assign-refused")
+                cc = Composition()
+                tlist = [Track() for _ in range(rngi.randint(1, 4))]
+                for t_ in tlist:
+                    cc.add_track(t_)
+                for step in range(rngi.randint(1, 3)):
+                    i = rngi.randrange(-len(tlist), len(tlist))
+                    nt = Track()
+                    nt.add_bar(bar_of(rngi.choice(pool)))
+                    st, r = ctx.call(cc.__setitem__, i, nt)
+                    tlist[i] = nt
+                    ctx.check("composition: length and indexing follow the tracks", st == "ok" and len(cc) == len(tlist)
+                              and all(cc[j] is tlist[j] for j in range(len(tlist))), {"history": "composition[%d] = track" % i}, len(tlist),
+                              repr(r) if st != "ok" else len(cc), mechanism="index-assign")
             ctx.case(("comp", repr(hist)), nontrivial=len(hist) >= 2)
             if ci == 0:
                 ctx.sample({"history": hist[:8], "tracks": len(tracks)})
